@@ -41,6 +41,7 @@
 import AriadneModel.Proofs.OrderPlugins
 import AriadneModel.Proofs.OrderResult
 import AriadneModel.Proofs.OrderClient
+import AriadneModel.Proofs.OrderSites
 
 set_option linter.unusedVariables false
 
@@ -621,5 +622,28 @@ example : (clientRun List.reverse List.reverse id [⟨["b.graphql"], false, "typ
     (fun ps pk rs => [("client.py", ps ++ rs.flatMap (·.operationFragments)), ("fragments.py", (pk.fragments.map (·.2.1)).getD [])])
     (fun _ ir => ",".intercalate ir) (fun _ => false) (fun _ => none)).toOption.map (·.written)
     = some [("client.py", "b.P,a.Q,AuditView,ContactView,FullView,UserCore"), ("fragments.py", "Af,Gq")] := by decide
+
+/-! ## 12. the trigger of C10-F2 per call site -/
+
+/-- (must) In an operation module only `from .fragments import …` is fed from a set: the module's import
+    summary is oracle independent as soon as no two names imported FROM THE FRAGMENTS MODULE tie on isort's
+    key — a tie inside any other import list of the module (`from .enums import OSType, OsType`: a list, in
+    selection order) is harmless on the unchanged tree and is NOT part of finding C10-F2.  (Sharper than
+    `operation_imports_oracle_independent`, whose hypothesis looks at the whole block.) -/
+theorem operation_imports_site_independent (e₁ e₂ : EnumOracle) (he₁ : EnumOK e₁) (he₂ : EnumOK e₂)
+    (pascal : Name → Name) (fm : String) (g : DefGen) (keep : Name → Bool) (ht : opSetFedTie pascal fm g = false) :
+    summary keep (opImports e₁ pascal fm g) = summary keep (opImports e₂ pascal fm g) :=
+  opImports_summary_eq e₁ e₂ he₁ he₂ pascal fm g keep ht
+
+/-- an operation module importing two tied ENUM names and two untied fragments: outside the site trigger,
+    inside the whole-block one -/
+def tiedEnumsGen : DefGen :=
+  { classes := ["Q"], imports := [⟨1, "enums", ["OSType", "OsType"]⟩], publicNames := ["Q"], usedEnums := ["OSType", "OsType"], mixins := ["Af", "Gq"] }
+
+example : opSetFedTie String.capitalize "fragments" tiedEnumsGen = false
+    ∧ summaryTie (opImports id String.capitalize "fragments" tiedEnumsGen) = true := by decide
+
+/-- … and the site trigger fires on the witness of C10-F2 -/
+example : opSetFedTie String.capitalize "fragments" { classes := ["Q1"], imports := [], publicNames := ["Q1"], usedEnums := [], mixins := ["fooBar", "foobar"] } = true := by decide
 
 end Ariadne.C10
